@@ -45,6 +45,18 @@ CHECKS = {
  "C11": ("other", "global-state inventory + lock-set analysis: per-instruction definitely-held locks (dataflow over Lock/Unlock incl. one-line lock()/unlock() wrappers, defers keep the lock), interprocedural callers-hold fix-point over the module call graph from the public API, classification guarded / atomic-only / sync.Once-initialised / listed configuration",
          "Decides, for every interleaving, that each package-level variable written after init is protected by one named lock on all API-reachable call paths (or atomic / once-initialised / a listed switch), that raw text access and mprotect run under the memory lock in the right mode, and that every entry-jump write runs under the patch lock. Does not decide races on user objects shared by misuse, nor atomicity of a multi-byte code write against threads executing those bytes.",
          "Trusted: go/ssa; sync.Mutex/RWMutex/Once semantics; nine listed configuration variables with reasons (logger switches, symTable pair, decoder debug switch); quick tier analyses linux/amd64, thorough adds linux/arm64 (one known finding there)."),
+ "C03": ("other", "data-dependence of the relocation loop's address correction on the output cursor, provenance of the jump-back operands and of the written bytes, dominance of the size / branch-back checks over the placeholder write, DBM guard on the minimum relocated length, constant evaluation of the opcode-widening table against the ISA, shape of the displacement correction",
+         "Decides the necessary conditions of the relocation arithmetic and of the failure contract (nothing fails after the placeholder write) for every prologue/placement. Whether relocated instructions execute like the originals (CPU semantics), unsupported short branches (allowed to panic) and internal short branches crossing a widened instruction are not decided.",
+         "Trusted: go/ssa; x86-64 opcode map for Jcc/JMP short→near (Intel SDM)."),
+ "C06": ("other", "taint rule (Type.String() must not reach a cache key), exact-parameter keys of per-type method caches, provenance chain mocker field → proxy → patch → MethodByName(name).Func, constant evaluation of symbol-name formats and their pointer-receiver guard",
+         "Decides target identity: which cache entry and which method a mock binds to, for every type/method name (incl. same-named types in different packages and prefix names). Run-time dispatch for value receivers and generic shapes is not decided.",
+         "Trusted: go/ssa; exact symbol matching is C10's rule."),
+ "C07": ("other", "retention rule for every pointer embedded in generated code (accumulating store into context-reachable memory on the same path), identity of the interface-mocker cache key (depends on the variable address), loop-shape proof that every method-table slot is defaulted and the mocked slot is the index of the requested name, first-write-wins back-up typestate + dominance over the overwrite, error-use analysis for the stub allocator",
+         "Decides the structural conditions for 'each method reaches its own replacement, un-mocked ones panic, the mock survives GC, variables are independent, Reset restores'. Execution of the stub code and GC behaviour themselves are not decided.",
+         "Trusted: go/ssa; the interface variable's data word is scanned by the GC (Go runtime)."),
+ "C10": ("other", "once-before-read dominance for the load-slide globals, anchor/name agreement (FullName of the measured object = constant looked up), provenance of returned addresses (table address + same-kind slide under err==nil), path-sensitive 'nil error ⇒ non-nil symbol', exact == on symbol names",
+         "Decides that lookups return table address + correctly-initialised slide only on success and an error otherwise, and that names are matched exactly. Correctness of the slide for every symbol and link mode is a property of the linker and is not decided.",
+         "Trusted: go/ssa; debug/gosym.LookupFunc is exact."),
 }
 NA = {}
 PENDING_REASON = "check not built yet in this revision (planned per DESIGN.md section 3); not claimed until it runs"
